@@ -330,6 +330,10 @@ func lookupNames(sp string, rng *rand.Rand, extra int) []string {
 	}
 	near := []string{"", ".", "a.", ".a", "a..b", "a.b.c.a", "a.b.c.a.b", "$x", "a.$x", "*", "a.*", ">", "a.>", "a.b.>", "s", "s.", "sa", "s.a.b.c.d", "x y", "a.?", "a\tb", "é.a"}
 	out = append(out, near...)
+	// names whose tokens spell out wildcard syntax (they are ordinary tokens in a NAME), below the mux path
+	for _, n := range []string{">", "a.>", "b.>", "a.*", "*.a", "a.$x", "$x", "a.b.>", "a.*.b", "*", "a.>.b", "c.>"} {
+		out = append(out, join(sp, n))
+	}
 	if sp != "" {
 		out = append(out, "a", "a.b", "b.a.c")
 	}
